@@ -7,6 +7,11 @@ Import ListNotations.
 
 Definition binop_of_name (n : str) : option binop := find (fun o => leqb (expand_binop o) n) binops_all.
 
+(* SPECIFICATION of the std library: std.math.pow takes the EXPONENT first (std.prql: `let pow = exponent column`),
+   every other binary operator function takes its operands in reading order.  Tied to std.sql.prql by
+   Props/C02.v std_pow_exponent_first; that ast_expand swaps exactly there is part of expand_sound. *)
+Definition rq_reversed (o : binop) : bool := match o with B_Pow => true | _ => false end.
+
 Fixpoint eval_r (env : list val) (r : rexpr) : option val :=
   match r with
   | RCol i => Some (nth i env VNull)
@@ -61,7 +66,7 @@ Fixpoint eval_r (env : list val) (r : rexpr) : option val :=
                         | _, _ => None
                         end
               end in
-            if expand_swaps o then bin b a else bin a b
+            if rq_reversed o then bin b a else bin a b
         | _, _ => None
         end
   end.
